@@ -173,6 +173,8 @@ def slq_expected(A, probes, P, budget):
     """A (*batch,n,n) float64 tensor, probes (*batch,n,m): log|P| + (n/m) sum_i u_i^T log(P^-1/2 A P^-1/2) u_i."""
     batch = tuple(A.shape[:-2])
     n, m = A.shape[-1], probes.shape[-1]
+    while probes.dim() > len(batch) + 2 and probes.shape[0] == 1:
+        probes = probes[0]
     Am = members(A, len(batch)).numpy()
     Zm = members(probes.double().expand(*batch, n, m), len(batch)).numpy()
     Pm = members(P.double().expand(*batch, n, n), len(batch)).numpy() if P is not None else [None] * len(Am)
